@@ -134,7 +134,7 @@ def c13_stage(out, tier, seed):
             lo, hi = o["min"], o["max"]
             big = o["name"] == "Hash"
             values = {lo, hi, o["default"], min(lo + 1, hi), max(hi - 1, lo)}
-            grid = 24 if not thorough else 120
+            grid = 24 if not thorough else 400
             for _ in range(grid):
                 v = rng.randint(lo, hi)
                 if big and not thorough:
